@@ -193,19 +193,14 @@ func runPrune(t *testing.T, run *emit.Run, n int) {
 			}
 		}
 
-		public, errd := false, false
+		// the message's life: which delivery data is reported, in which order, and where evidence
+		// falls in between.  0 undelivered; 1 error at the start; 2 public then error at the start
+		// (the error report is ignored); 3 public at the start; 4 error, evidence, public; 5 public,
+		// evidence, error (ignored); 6 evidence, error, evidence, public; 7 evidence first, data last
 		opts := &consensus.PutOptions{RequireSignatures: true}
-		switch r.Intn(8) {
-		case 0: // undelivered
-		case 1:
-			errd = true
-		case 2:
-			public, errd = true, true
-		default:
-			public = true
-		}
+		plan := []int{0, 1, 2, 3, 3, 3, 4, 4, 4, 5, 6, 6, 7}[r.Intn(13)]
 		if scripted {
-			public, errd = true, false
+			plan = 3
 		}
 		requireGas := r.Intn(3) == 0
 		opts.RequireGasEstimation = requireGas
@@ -215,15 +210,19 @@ func runPrune(t *testing.T, run *emit.Run, n int) {
 		if err != nil {
 			t.Fatal(err)
 		}
-		if public {
-			if err := k.SetMessagePublicAccessData(ctx, pvalAddr(0), &types.MsgSetPublicAccessData{MessageID: id, QueueTypeName: qname, Data: []byte{1}}); err != nil {
+		var opItems []string // the message's history for the model, in order
+		setPublic := func() {
+			// any accepted validator may report the delivery
+			if err := k.SetMessagePublicAccessData(ctx, pvalAddr(r.Intn(10)), &types.MsgSetPublicAccessData{MessageID: id, QueueTypeName: qname, Data: []byte{1}}); err != nil {
 				t.Fatalf("SetMessagePublicAccessData: %v", err)
 			}
+			opItems = append(opItems, "(2, 0, 0, 0, false)")
 		}
-		if errd {
+		setError := func() {
 			if err := k.SetMessageErrorData(ctx, pvalAddr(0), &types.MsgSetErrorData{MessageID: id, QueueTypeName: qname, Data: []byte{2}}); err != nil {
 				t.Fatalf("SetMessageErrorData: %v", err)
 			}
+			opItems = append(opItems, "(1, 0, 0, 0, false)")
 		}
 		// evidence: aim at a fraction of the total
 		target := r.Intn(5) // 0 none, 1 around 10 %, 2 around 2/3, 3 random subset, 4 everybody
@@ -274,9 +273,46 @@ func runPrune(t *testing.T, run *emit.Run, n int) {
 			}
 			submitted[v] = true
 			subItems = append(subItems, emit.Pair(emit.ZI(int64(v)), emit.ZI(int64(p.tag)), emit.ZI(int64(p.id)), emit.Bool(p.bad)))
+			opItems = append(opItems, emit.Pair("0", emit.ZI(int64(v)), emit.ZI(int64(p.tag)), emit.ZI(int64(p.id)), emit.Bool(p.bad)))
 			return true
 		}
 		lastProof := map[int]int{}
+		// evidence that arrives between two reports: 1-3 validators, who mostly do not attest again later
+		early := map[int]bool{}
+		earlyEvidence := func() {
+			for _, v := range r.Perm(12)[:1+r.Intn(3)] {
+				pi := r.Intn(nproofs)
+				if send(v, pi) {
+					lastProof[v] = pi
+					early[v] = true
+				}
+			}
+			run.Count("prune-early-evidence", fmt.Sprintf("plan %d", plan))
+		}
+		switch plan {
+		case 1:
+			setError()
+		case 2:
+			setPublic()
+			setError()
+		case 3:
+			setPublic()
+		case 4:
+			setError()
+			earlyEvidence()
+			setPublic()
+		case 5:
+			setPublic()
+			earlyEvidence()
+			setError()
+		case 6:
+			earlyEvidence()
+			setError()
+			earlyEvidence()
+			setPublic()
+		case 7:
+			earlyEvidence()
+		}
 		if scripted {
 			send(0, 0)
 			send(0, 0)
@@ -285,6 +321,9 @@ func runPrune(t *testing.T, run *emit.Run, n int) {
 		for _, v := range order {
 			if target == 0 {
 				break
+			}
+			if early[v] && r.Intn(4) != 0 {
+				continue // attested the earlier report, does not attest again
 			}
 			share, inside := shareOf(v)
 			switch target {
@@ -355,11 +394,21 @@ func runPrune(t *testing.T, run *emit.Run, n int) {
 			}
 			sn.TotalShares = sdkmath.NewIntFromBigInt(tot)
 		}
-		// the evidence list as the real queue holds it before pruning (what VerifyEvidence will sum over)
+		if plan == 7 {
+			if r.Intn(2) == 0 {
+				setError()
+			}
+			if r.Intn(2) == 0 {
+				setPublic()
+			}
+		}
+		run.Count("prune-plan", fmt.Sprint(plan))
+		// the message as the real queue holds it before pruning (what PruneJob / VerifyEvidence will see)
 		m, err := k.GetMessagesFromQueue(ctx, qname, 0)
 		if err != nil || len(m) != 1 {
 			t.Fatalf("queue read: %v (%d msgs)", err, len(m))
 		}
+		public, errd := m[0].GetPublicAccessData() != nil, m[0].GetErrorData() != nil
 		var evItems []string
 		entries := map[int]int{}
 		for _, e := range m[0].GetEvidence() {
@@ -377,7 +426,13 @@ func runPrune(t *testing.T, run *emit.Run, n int) {
 			}
 			evItems = append(evItems, emit.Pair(emit.ZI(int64(v)), emit.ZI(int64(proofs[pi].tag)), emit.ZI(int64(proofs[pi].id)), emit.Bool(proofs[pi].bad)))
 		}
-		dupRep := map[string]any{"kind": "prune", "snapshot": snItems, "submissions(val,type,bytes)": subItems, "stored_evidence": evItems}
+		dupRep := map[string]any{"kind": "prune", "snapshot": snItems, "history(0=evidence val type bytes|1=error|2=public)": opItems, "stored_evidence": evItems}
+		// nothing but AddEvidence touches the list: whoever supplied evidence at ANY time has an entry
+		for v := range submitted {
+			if entries[v] == 0 {
+				violate(run, "C13:evidence-entry-lost", fmt.Sprintf("validator %d supplied evidence for the message and has no evidence entry left on it before pruning", v), dupRep)
+			}
+		}
 		for v, c := range entries {
 			if c > 1 {
 				violate(run, "C13:evidence-entry-duplicated", fmt.Sprintf("validator %d has %d evidence entries on one message after re-sending: its shares are counted %d times", v, c, c), dupRep)
@@ -396,7 +451,7 @@ func runPrune(t *testing.T, run *emit.Run, n int) {
 
 		// ---- direct oracle on what the real keeper did ----
 		rep := map[string]any{"kind": "prune", "snapshot": snItems, "total": tot.String(), "public": public, "error": errd,
-			"submissions(val,type,bytes)": subItems, "stored_evidence(val,type,bytes)": evItems, "distinct_attesting_share": votes.String(),
+			"history(0=evidence val type bytes|1=error|2=public)": opItems, "stored_evidence(val,type,bytes)": evItems, "distinct_attesting_share": votes.String(),
 			"refuse": refuse, "jail_calls": vs.calls}
 		for _, c := range vs.calls {
 			in := false
@@ -433,6 +488,6 @@ func runPrune(t *testing.T, run *emit.Run, n int) {
 		run.Count("prune-outcome", cls)
 		sortedJ := append([]int{}, vs.jailed...)
 		run.Case(fmt.Sprintf("C13.CPrune %s %s %s %s %s %s %s %s %s", emit.List(snItems), emit.Z(tot), emit.Bool(public), emit.Bool(errd),
-			emit.List(subItems), emit.List(evItems), emit.List(refuse), intsCoq(vs.calls), intsCoq(sortedJ)), len(vs.calls) > 0 || cls == "below-floor", rep)
+			emit.List(opItems), emit.List(evItems), emit.List(refuse), intsCoq(vs.calls), intsCoq(sortedJ)), len(vs.calls) > 0 || cls == "below-floor", rep)
 	}
 }
